@@ -307,6 +307,14 @@ func (s *Sim) DriveHand(h *Hand) *Hand {
 			default:
 				continue
 			}
+			if s.Resync {
+				// after a concurrent burst several snapshots are queued: only the one the
+				// engine is actually waiting at is a decision point
+				if ev.Table.UpdateSerial < s.TE.GetTable().UpdateSerial {
+					continue
+				}
+				s.Resync = false
+			}
 			h.Decisions++
 			if !s.handleDecision(h, d) {
 				if h.Outcome == "" {
@@ -447,6 +455,11 @@ func (s *Sim) handleDecision(h *Hand, d *Decision) bool {
 		}
 		if s.Stall != "" {
 			return false
+		}
+		if s.SkipAct {
+			// a hook already moved the hand on (concurrent burst)
+			s.SkipAct = false
+			return true
 		}
 		if h.Temper < 0 {
 			if s.Hooks.Temper != nil {
